@@ -138,7 +138,7 @@ def run_case(case):
     with Sim() as sim:
         phase = case.get("phase", "main")
         tm = timings(CYCLIC_OFFER_DELAY=1e7 if phase == "cyclic" else 0, ANNOUNCE_TTL=INF, SEND_COLLECTION_TIMEOUT=0,
-                     INITIAL_DELAY_MIN=1e9 if phase == "initial-wait" else 0, INITIAL_DELAY_MAX=1e9 if phase == "initial-wait" else 0)
+                     INITIAL_DELAY_MIN=1e7 if phase == "initial-wait" else 0, INITIAL_DELAY_MAX=1e7 if phase == "initial-wait" else 0)
         prot = make_sd(sim, tm)
         reject = [0]
 
